@@ -22,8 +22,10 @@ from vx.extract import REPO              # noqa: E402
 import units                              # noqa: E402
 from units import props as P              # noqa: E402
 
-EVID = os.path.join(ROOT, "evidence")
-REPLAY = os.path.join(ROOT, "evidence", "replay")
+# VERIF_EVIDENCE_DIR: used by the mutation self-tests so that runs against deliberately broken trees do not
+# overwrite the evidence of the registered checks
+EVID = os.environ.get("VERIF_EVIDENCE_DIR") or os.path.join(ROOT, "evidence")
+REPLAY = os.path.join(EVID, "replay")
 
 
 def closure(unit_names):
